@@ -63,6 +63,15 @@ def prepare(data, info, time_entries=1, force_copy=False, report_conversion=Fals
     """
     units_converted = None
     units = info.units
+    mask = info.mask
+    if (
+        info.is_masked
+        and isinstance(info.grid, Grid)
+        and np.ndim(data) == 1
+        and np.ndim(mask) > 1
+    ):
+        # flat data is given in grid order, so the mask needs to be flattened the same way
+        mask = np.ravel(mask, order=info.grid.order)
     if is_quantified(data):
         if not compatible_units(data.units, units):
             raise FinamDataError(
@@ -73,7 +82,7 @@ def prepare(data, info, time_entries=1, force_copy=False, report_conversion=Fals
             data = UNITS.Quantity(
                 np.ma.array(
                     data=data.magnitude,
-                    mask=info.mask,
+                    mask=mask,
                     shrink=False,
                     fill_value=info.fill_value,
                 ),
@@ -89,7 +98,7 @@ def prepare(data, info, time_entries=1, force_copy=False, report_conversion=Fals
             data = UNITS.Quantity(
                 np.ma.array(
                     data=data,
-                    mask=info.mask,
+                    mask=mask,
                     shrink=False,
                     fill_value=info.fill_value,
                     copy=force_copy,
